@@ -354,6 +354,17 @@ func (w *World) orderDependentEffects(ml *mapLoop) []string {
 						continue
 					}
 				}
+				// dst[name] = v where name is a local of the body that is (on some path) taken
+				// from another table (`if alias, ok := aliases[k]; ok { name = alias }`): two
+				// entries can be translated to the same name, then iteration order decides
+				if ix, ok := lhs.(*ast.IndexExpr); ok && isMapType(w.Info.TypeOf(ix.X)) && !declaredIn(identObj(w, ix.X), ml.body) {
+					if ko := identObj(w, ix.Index); ko != nil && declaredIn(ko, ml.body) && ko != ml.key {
+						if from := w.translatedFrom(ml.body, ko); from != "" {
+							eff = append(eff, fmt.Sprintf("stores under a name translated through %s: two entries can be given the same name, and which of them stays is decided by iteration order (%s)", from, w.pos(x)))
+							continue
+						}
+					}
+				}
 				o := identObj(w, lhs)
 				if o == nil || declaredIn(o, ml.body) {
 					// stores into maps / fields are keyed: commutative for distinct keys
@@ -955,4 +966,44 @@ func (w *World) underKeyEquality(ml *mapLoop, n ast.Node, derived []types.Object
 		}
 	}
 	return false
+}
+
+// translatedFrom: the local ko is assigned, somewhere in body, a value that was looked up in a
+// map (directly, or through the variable of an `x, ok := m[k]` lookup); returns the map's text.
+func (w *World) translatedFrom(body *ast.BlockStmt, ko types.Object) string {
+	// variables defined by a lookup m[k]
+	lookedUp := map[types.Object]string{}
+	ast.Inspect(body, func(n ast.Node) bool {
+		as, ok := n.(*ast.AssignStmt)
+		if !ok || len(as.Rhs) != 1 {
+			return true
+		}
+		if ix, ok := ast.Unparen(as.Rhs[0]).(*ast.IndexExpr); ok && isMapType(w.Info.TypeOf(ix.X)) {
+			if o := identObj(w, as.Lhs[0]); o != nil {
+				lookedUp[o] = types.ExprString(ix.X)
+			}
+		}
+		return true
+	})
+	from := ""
+	ast.Inspect(body, func(n ast.Node) bool {
+		as, ok := n.(*ast.AssignStmt)
+		if !ok || from != "" {
+			return true
+		}
+		for i, lhs := range as.Lhs {
+			if identObj(w, lhs) != ko || i >= len(as.Rhs) {
+				continue
+			}
+			rhs := ast.Unparen(as.Rhs[i])
+			if ix, ok := rhs.(*ast.IndexExpr); ok && isMapType(w.Info.TypeOf(ix.X)) {
+				from = types.ExprString(ix.X)
+			}
+			if o := identObj(w, rhs); o != nil && lookedUp[o] != "" {
+				from = lookedUp[o]
+			}
+		}
+		return true
+	})
+	return from
 }
